@@ -114,7 +114,7 @@ def run_sequences(c):
         return {"name": name, "auth": auth, "i": i, "add": list(add), "rem": list(rem)}
     fixed = {"reqs": [rq("editComment", i=3), rq("changeLabels", rem=["x"]), rq("setTitle", auth=False), rq("addCommentAndClose"), rq("addCommentAndReopen"),
                       rq("changeLabels", add=["x", "y"]), rq("changeLabels", add=["x"], rem=["y"]), rq("editComment", i=2), rq("editCommentAmbiguous"), rq("editComment", i=1), rq("closeBug"),
-                      rq("closeBug"), rq("openBug", auth=False), rq("openBug"), rq("setTitle"), rq("setTitleEmpty"), rq("setTitle"), rq("setTitle", auth=False), rq("setTitle"), rq("unknownBug"), rq("addComment", auth=False),
+                      rq("closeBug"), rq("openBug", auth=False), rq("openBug"), rq("setTitle"), rq("setTitleEmpty"), rq("setTitle"), rq("setTitle", auth=False), rq("setTitle"), rq("unknownBug"), rq("addCommentMissingFile"), rq("setTitle"), rq("addComment", auth=False),
                       rq("addComment"), rq("changeLabels", rem=["x", "y"])]}
     raced = {"reqs": [dict(r, race=r["auth"]) for r in fixed["reqs"]]}
     scheds = [fixed, fixed, fixed, raced, raced, raced] + seq_schedules(c, 30 if c.tier == "quick" else 600)     # the fixed ones under each configured user
@@ -123,7 +123,7 @@ def run_sequences(c):
     import random
     rnd = random.Random(c.seed * 7919 + 17)
     names = ["addComment", "addCommentAndClose", "addCommentAndReopen", "editComment", "editCommentAmbiguous", "changeLabels", "openBug", "closeBug",
-             "setTitle", "setTitleEmpty", "unknownBug"]
+             "setTitle", "setTitleEmpty", "unknownBug", "addCommentMissingFile"]
     for _ in range(45 if c.tier == "quick" else 1500):
         reqs, ncomments = [], 1
         for _k in range(16):
